@@ -36,6 +36,18 @@ C05(w) ==
   ELSE IF ~w.ret.res THEN <<"C05.ReturnTrue", "delivered but write() returned False">>
   ELSE OK
 
+\* the destination's application was busy and then sent a message of its own before polling: the message the radio had
+\* accepted (write() returned True) must still come out of its queue, once (other traffic of the window is not judged)
+C05b(w) ==
+  LET c == w.call
+      good == {i \in Idx(w.deqs) : w.deqs[i].n = NameAt(c.to) /\ w.deqs[i]["from"] = c.src /\ w.deqs[i].type = c.type
+                                   /\ w.deqs[i].msg = c.msg} IN
+  IF w.ret.exc # "none" THEN <<"C05.ReturnTrue", "write() raised " \o w.ret.exc>>
+  ELSE IF ~w.ret.res THEN <<"C05.ReturnTrue", "write() to a listening neighbour returned False">>
+  ELSE IF good = {} THEN <<"C05.Delivered", "write() returned True but the message never reached the destination queue (the destination transmitted before it polled)">>
+  ELSE IF Cardinality(good) > 1 THEN <<"C05.Once", "message delivered " \o ToString(Cardinality(good)) \o " times">>
+  ELSE OK
+
 \* ---- ground truth helpers
 RxBy(pkt, nm) == \E k \in Idx(pkt.rx) : pkt.rx[k][1] = nm /\ pkt.rx[k][3] = "new"
 FromNode(pkts, nm) == SelectSeq(pkts, LAMBDA p : p.src = nm)
@@ -122,6 +134,7 @@ Families(w) == {w.call.chk[i] : i \in Idx(w.call.chk)}
 Verdicts(w) == (IF Families(w) = {} THEN <<>> ELSE <<Crash(w)>>)
                \o (IF "C07" \in Families(w) THEN <<C07(w)>> ELSE <<>>)
                \o (IF "C05" \in Families(w) THEN <<C05(w)>> ELSE <<>>)
+               \o (IF "C05b" \in Families(w) THEN <<C05b(w)>> ELSE <<>>)
                \o (IF "C13" \in Families(w) THEN <<C13(w)>> ELSE <<>>)
                \o (IF "C13x" \in Families(w) THEN <<C13x(w)>> ELSE <<>>)
                \o (IF "C14" \in Families(w) THEN <<C14(w)>> ELSE <<>>)
